@@ -725,7 +725,7 @@ static void do_run(uint64_t subseed, int tier_long, const runcfg *preset)
             if (g_metrics) printf("# metric gap_db=%.2f n=%ld vary=%d\n", db, gap_n, c.vary);
             if (db > C20_GAP_MAX_DB) witness("decoder_gap_level", subseed, -1, "decoded level during DTX on digital silence is %.1f dBFS (calibrated limit %.1f)", db, (double)C20_GAP_MAX_DB);
          }
-         if (act_n > 4L * c.fs / 10 && in_e > 0 && (c.ubr < 0 || c.ubr >= 12000) && c.out_bytes >= 100) {
+         if (pure && act_n > 4L * c.fs / 10 && in_e > 0 && (c.ubr < 0 || c.ubr >= 12000) && c.out_bytes >= 100) {   /* fixed settings only */
             double d = 10 * log10((act_e + 1e-12) / (in_e + 1e-12));
             if (g_metrics) printf("# metric act_db=%.2f n=%ld vary=%d app=%d q=%d\n", d, act_n, c.vary, c.app, c.q);
             if (d < C20_ACT_MIN_DB || d > C20_ACT_MAX_DB) witness("decoder_active_level", subseed, -1, "decoded/input energy over active packets is %.1f dB (calibrated range %.1f..%.1f)", d, (double)C20_ACT_MIN_DB, (double)C20_ACT_MAX_DB);
